@@ -699,7 +699,7 @@ def run_khandle(c, res, pid, tier, seed):
         res.coverage['k_handle'] = hcov
         for b in hbad[:3]:
             res.violation(pid + ': K-handle: %s' % b['why'], {'kind': 'handle-manager-correspondence', 'ops': b['ops'], 'implementation_printed': b['impl'], 'coq_case': b.get('coq_case', ''),
-                                                           'how': 'echo "<ops>" | .cache/bin/hmdrv   (ops: s slot ptr | o slot hsess priv ptr | t slot priv ptr | d h | c h | a slot | l slot); model: coq/Conc/HandleLife.v `obs`'})
+                                                           'how': 'echo "<ops>" | .cache/bin/hmdrv   (ops: s slot ptr | o slot hsess priv ptr | t slot priv ptr | d h | c h | a slot | l slot); model: coq/Conc/HandleLife.v `obs`'}, no_input=bool(b.get('no_input')))
     except Exception as e:
         res.violation(pid + ': K-handle could not run: %s' % str(e)[:300], {'kind': 'handle-manager-correspondence', 'theorem_or_correspondence': 'K-handle (coq/Conc/HandleLife.v vs src/lib/handle_mgr/HandleManager.cpp)', 'error': str(e)[:2000]}, no_input=True)
 
